@@ -25,8 +25,8 @@ func (r *tqvResp) Context(ctx context.Context)     {}
 
 type tqvLog struct{}
 
-func (tqvLog) Infof(ctx context.Context, format string, args ...interface{})     {}
-func (tqvLog) Errorf(ctx context.Context, format string, args ...interface{})    {}
+func (tqvLog) Infof(ctx context.Context, format string, args ...interface{})      {}
+func (tqvLog) Errorf(ctx context.Context, format string, args ...interface{})     {}
 func (tqvLog) Record(ctx context.Context, r map[string]string, obscure ...string) {}
 
 type tqvKeychain struct{}
